@@ -38,6 +38,9 @@ func stageHarness() (string, error) {
 			return err
 		}
 		rel, _ := filepath.Rel(src, p)
+		if _, skip := excludedHarness[rel]; skip {
+			return nil // does not compile against this tree (see loadProgram)
+		}
 		data, err := os.ReadFile(p)
 		if err != nil {
 			return err
@@ -194,6 +197,68 @@ func runReplay(doc *ReplayDoc, path string) ReplayResult {
 		args = append(args, "-race")
 	}
 	args = append(args, "./"+pkgdir)
+	// a schedule-dependent counterexample is reproduced natively by repetition, which can miss on a
+	// loaded machine: such replays are attempted up to three times
+	attempts := 1
+	if harnessIsScheduleDependent(doc.Harness) {
+		attempts = 3
+	}
+	var rr ReplayResult
+	for a := 0; a < attempts && !rr.Reproduced; a++ {
+		rr = runReplayOnce(doc, path, args)
+	}
+	return rr
+}
+
+var helperCallRe = regexp.MustCompile(`\b(verif[A-Z]\w*)\(`)
+
+// harnessIsScheduleDependent: the harness (or a helper it calls) explores or repeats schedules
+func harnessIsScheduleDependent(h string) bool {
+	dir := harnessPkgDir(h)
+	if dir == "" {
+		return false
+	}
+	var src strings.Builder
+	files, _ := filepath.Glob(filepath.Join(verifDir, "harness", dir, "*.go"))
+	for _, f := range files {
+		b, _ := os.ReadFile(f)
+		src.Write(b)
+		src.WriteString("\n")
+	}
+	all := src.String()
+	body := func(name string) string {
+		i := strings.Index(all, "\nfunc "+name+"(")
+		if i < 0 {
+			return ""
+		}
+		rest := all[i+1:]
+		if j := strings.Index(rest, "\n}\n"); j >= 0 {
+			return rest[:j]
+		}
+		return rest
+	}
+	marks := []string{"verifRepeat(", "verifSched(", "verifRaceDetect(", "verifRunOnly(", "verifPar("}
+	has := func(b string) bool {
+		for _, m := range marks {
+			if strings.Contains(b, m) {
+				return true
+			}
+		}
+		return false
+	}
+	b := body(h)
+	if has(b) {
+		return true
+	}
+	for _, m := range helperCallRe.FindAllStringSubmatch(b, -1) {
+		if has(body(m[1])) {
+			return true
+		}
+	}
+	return false
+}
+
+func runReplayOnce(doc *ReplayDoc, path string, args []string) ReplayResult {
 	ctx, cancel := context.WithTimeout(context.Background(), 10*time.Minute)
 	defer cancel()
 	cmd := exec.CommandContext(ctx, "go", args...)
